@@ -281,7 +281,7 @@ def pn_cases(draw, nmax=401):
 # grid of a step relative to the evaluation before it: 'spacing' same number of points, other spacing; 'length' other
 # number of points; 'same' the same x, other disregistry; 'shift' same points and spacing, translated; 'back' the first
 # (x, disregistry) again.  via: how (x, disregistry) reach the object.  chg: settings changed through the setters first.
-_grid_kind = st.sampled_from(['spacing', 'spacing', 'spacing', 'length', 'same', 'shift', 'back'])
+_grid_kind = st.sampled_from(['spacing', 'spacing', 'spacing', 'length', 'same', 'shift', 'back', 'back'])
 _via = st.sampled_from(['args', 'args', 'kw', 'setter', 'x_arg', 'd_arg'])
 _chg_keys = st.lists(st.sampled_from(['tau', 'alpha', 'beta', 'cutoff', 'fullstress', 'cdiffelastic', 'cdiffsurface',
                                       'cdiffstress']), min_size=1, max_size=3, unique=True)
@@ -314,7 +314,7 @@ def pn_hist_cases(draw):
 
 
 _method = st.sampled_from(['Powell', 'Powell', 'Powell', 'Nelder-Mead', 'L-BFGS-B'])
-_pre_grid = st.sampled_from(['spacing', 'spacing', 'length', 'same', 'shift'])
+_pre_grid = st.sampled_from(['spacing', 'spacing', 'spacing', 'length', 'same', 'shift'])
 
 
 @st.composite
@@ -352,7 +352,7 @@ def solve_cases(draw):
     # the settings reach the object through the constructor, the attribute setters or solve's keyword arguments
     c['hist'] = None
     if draw(st.integers(0, 2)) > 0:
-        c['hist'] = {'grid': draw(_pre_grid), 'prof': draw(_profiles(21)), 'stored_first': draw(_bool),
+        c['hist'] = {'grid': draw(_pre_grid), 'prof': draw(_profiles(21)), 'stored_first': draw(st.integers(0, 2)) > 0,
                      'post': draw(_bool), 'settings_via': draw(st.sampled_from(['ctor', 'setters', 'solve_kw']))}
     return c
 
